@@ -45,6 +45,8 @@ OPEN_TYPE_ber_get(const asn_codec_ctx_t *opt_codec_ctx,
     void *memb_ptr;   /* Pointer to the member */
     void **memb_ptr2; /* Pointer to that pointer */
     void *inner_value;
+    void **inner_value_p;   /* Where the decoder finds or puts the value */
+    const asn_TYPE_member_t *variant;
     asn_dec_rval_t rv;
 
     if(!(elm->flags & ATF_OPEN_TYPE)) {
@@ -76,14 +78,20 @@ OPEN_TYPE_ber_get(const asn_codec_ctx_t *opt_codec_ctx,
         }
     }
 
-    inner_value =
-        (char *)*memb_ptr2
-        + elm->type->elements[selected.presence_index - 1].memb_offset;
+    variant = &elm->type->elements[selected.presence_index - 1];
+    if(variant->flags & ATF_POINTER) {
+        /* The variant is held by pointer (a type which refers to itself) */
+        inner_value_p = (void **)((char *)*memb_ptr2 + variant->memb_offset);
+        inner_value = NULL;
+    } else {
+        inner_value = (char *)*memb_ptr2 + variant->memb_offset;
+        inner_value_p = &inner_value;
+    }
 
     ASN_DEBUG("presence %d\n", selected.presence_index);
 
     rv = selected.type_descriptor->op->ber_decoder(
-        opt_codec_ctx, selected.type_descriptor, &inner_value, ptr, size,
+        opt_codec_ctx, selected.type_descriptor, inner_value_p, ptr, size,
         elm->tag_mode);
     ADVANCE(rv.consumed);
     rv.consumed = 0;
@@ -112,6 +120,9 @@ OPEN_TYPE_ber_get(const asn_codec_ctx_t *opt_codec_ctx,
         if(elm->flags & ATF_POINTER) {
             ASN_STRUCT_FREE(*selected.type_descriptor, inner_value);
             *memb_ptr2 = NULL;
+        } else if(variant->flags & ATF_POINTER) {
+            ASN_STRUCT_FREE(*selected.type_descriptor, *inner_value_p);
+            memset(*memb_ptr2, 0, specs->struct_size);
         } else {
             ASN_STRUCT_FREE_CONTENTS_ONLY(*selected.type_descriptor,
                                           inner_value);
@@ -130,6 +141,8 @@ OPEN_TYPE_xer_get(const asn_codec_ctx_t *opt_codec_ctx,
     void *memb_ptr;   /* Pointer to the member */
     void **memb_ptr2; /* Pointer to that pointer */
     void *inner_value;
+    void **inner_value_p;   /* Where the decoder finds or puts the value */
+    const asn_TYPE_member_t *variant;
     asn_dec_rval_t rv;
 
     int xer_context = 0;
@@ -201,12 +214,18 @@ OPEN_TYPE_xer_get(const asn_codec_ctx_t *opt_codec_ctx,
         ASN__DECODE_FAILED;
     }
 
-    inner_value =
-        (char *)*memb_ptr2
-        + elm->type->elements[selected.presence_index - 1].memb_offset;
+    variant = &elm->type->elements[selected.presence_index - 1];
+    if(variant->flags & ATF_POINTER) {
+        /* The variant is held by pointer (a type which refers to itself) */
+        inner_value_p = (void **)((char *)*memb_ptr2 + variant->memb_offset);
+        inner_value = NULL;
+    } else {
+        inner_value = (char *)*memb_ptr2 + variant->memb_offset;
+        inner_value_p = &inner_value;
+    }
 
     rv = selected.type_descriptor->op->xer_decoder(
-        opt_codec_ctx, selected.type_descriptor, &inner_value, NULL, ptr, size);
+        opt_codec_ctx, selected.type_descriptor, inner_value_p, NULL, ptr, size);
     ADVANCE(rv.consumed);
     rv.consumed = 0;
     switch(rv.code) {
@@ -234,6 +253,9 @@ OPEN_TYPE_xer_get(const asn_codec_ctx_t *opt_codec_ctx,
             if(elm->flags & ATF_POINTER) {
                 ASN_STRUCT_FREE(*selected.type_descriptor, inner_value);
                 *memb_ptr2 = NULL;
+            } else if(variant->flags & ATF_POINTER) {
+                ASN_STRUCT_FREE(*selected.type_descriptor, *inner_value_p);
+                memset(*memb_ptr2, 0, specs->struct_size);
             } else {
                 ASN_STRUCT_FREE_CONTENTS_ONLY(*selected.type_descriptor,
                                               inner_value);
@@ -293,6 +315,8 @@ OPEN_TYPE_uper_get(const asn_codec_ctx_t *opt_codec_ctx,
     void *memb_ptr;   /* Pointer to the member */
     void **memb_ptr2; /* Pointer to that pointer */
     void *inner_value;
+    void **inner_value_p;   /* Where the decoder finds or puts the value */
+    const asn_TYPE_member_t *variant;
     asn_dec_rval_t rv;
 
     if(!(elm->flags & ATF_OPEN_TYPE)) {
@@ -326,12 +350,18 @@ OPEN_TYPE_uper_get(const asn_codec_ctx_t *opt_codec_ctx,
         }
     }
 
-    inner_value =
-        (char *)*memb_ptr2
-        + elm->type->elements[selected.presence_index - 1].memb_offset;
+    variant = &elm->type->elements[selected.presence_index - 1];
+    if(variant->flags & ATF_POINTER) {
+        /* The variant is held by pointer (a type which refers to itself) */
+        inner_value_p = (void **)((char *)*memb_ptr2 + variant->memb_offset);
+        inner_value = NULL;
+    } else {
+        inner_value = (char *)*memb_ptr2 + variant->memb_offset;
+        inner_value_p = &inner_value;
+    }
 
     rv = uper_open_type_get(opt_codec_ctx, selected.type_descriptor, NULL,
-                            &inner_value, pd);
+                            inner_value_p, pd);
     switch(rv.code) {
     case RC_OK:
         if(CHOICE_variant_set_presence(elm->type, *memb_ptr2,
@@ -350,6 +380,9 @@ OPEN_TYPE_uper_get(const asn_codec_ctx_t *opt_codec_ctx,
             if(elm->flags & ATF_POINTER) {
                 ASN_STRUCT_FREE(*selected.type_descriptor, inner_value);
                 *memb_ptr2 = NULL;
+            } else if(variant->flags & ATF_POINTER) {
+                ASN_STRUCT_FREE(*selected.type_descriptor, *inner_value_p);
+                memset(*memb_ptr2, 0, specs->struct_size);
             } else {
                 ASN_STRUCT_FREE_CONTENTS_ONLY(*selected.type_descriptor,
                                               inner_value);
